@@ -113,7 +113,9 @@ class RealEngine(object):
         if tag == "atom":
             return self.yp.atom(t[1])
         if tag == "int":
-            return t[1]
+            # a new int object for every occurrence (outside CPython's small-int cache): equal numbers are not identical objects,
+            # as when they come from separately compiled scripts or from input
+            return int(str(t[1]))
         if tag == "var":
             if t[1] == "_":
                 return self.yp.variable()
